@@ -43,6 +43,13 @@ m("c01_sink_write_fmt", "C01", r"C01\.SINK:.*unrecognised", "WriteTop writes num
                         write!(output, "{}", top)?;
                     } else if !self.autoescape_enabled() || top.is_safe() {
                         if let Some(captured) = state.capture_buffers.last_mut() {""")
+m("c02_sc_return_before_patch", "C02", r"C02\.SC:patch-own-jump", "an and/or node nested in a capture-free context returns before popping its body",
+  "tera/src/parsing/compiler.rs", """                        self.compile_expr(op.right);
+                        let end = self.chunk.len();""", """                        self.compile_expr(op.right);
+                        if self.processing_bodies.len() > 8 {
+                            return;
+                        }
+                        let end = self.chunk.len();""")
 # ---------------------------------------------------------------- C05
 m("c05_iso_global", "C05", r"C05\.ISO:writer:global_context", "render_component gives the component the global context",
   "tera/src/vm/interpreter.rs", """        let mut state = State::new_with_chunk(&context, chunk);
